@@ -5,6 +5,7 @@ package zzvh
 import (
 	col "github.com/craterdog/go-collection-framework/v4/collection"
 	vf "github.com/craterdog/go-collection-framework/v4/zzvf"
+	"sync"
 )
 
 // scribble overwrites every slot of a Go array with a fresh symbolic value.
@@ -369,6 +370,43 @@ func VF_C18_ClassFunctions(sizes, fn int) {
 		A.SetValue(w, w)
 		vf.Assert("result-unaffected-by-changes-to-the-operands", eqInts(snap(r2), r0))
 	}
+	vf.BudgetReset()
+	vf.Reach("end")
+}
+
+// VF_C18_QueueArguments: the sequence of input queues handed to Join (and the queue handed to Fork / Split) is read
+// when the call is made: emptying or extending the caller's list right after the call changes nothing.
+// Symbolic execution with the cooperative scheduler (the helper goroutine first runs when this thread blocks).
+func VF_C18_QueueArguments(n, _ int) {
+	cls := col.Queue[int](nil)
+	var wg sync.WaitGroup
+	a, b := cls.MakeWithCapacity(4), cls.MakeWithCapacity(4)
+	ins := col.List[col.QueueLike[int]](nil).MakeFromArray([]col.QueueLike[int]{a, b})
+	vf.Budget(40000000)
+	out := cls.Join(&wg, ins)
+	ins.RemoveAll() // the caller's list is the caller's again
+	ins.AppendValue(cls.MakeWithCapacity(1))
+	x := vf.Int("x")
+	for i := 0; i < n; i++ {
+		a.AddValue(x + 2*i)
+		b.AddValue(x + 2*i + 1)
+	}
+	a.CloseQueue()
+	b.CloseQueue()
+	var got []int
+	for i := 0; i <= 2*n+1; i++ {
+		v, ok := out.RemoveHead()
+		if !ok {
+			break
+		}
+		got = append(got, v)
+	}
+	want := make([]int, 2*n)
+	for i := range want {
+		want[i] = x + i
+	}
+	vf.Assert("join-reads-its-argument-at-the-call", eqInts(got, want))
+	wg.Wait()
 	vf.BudgetReset()
 	vf.Reach("end")
 }
